@@ -686,8 +686,65 @@ def san_runs(tier, seed, fl, scale=1.0, with_expr=True, with_examples=True):
     return runs
 
 
+def c09_post(res, tier, seed):
+    """which library lines did the sanitized workloads reach? (cov flavour:
+    the same drivers and seeds at -O0 --coverage, line counters by gcov)"""
+    import glob
+    import tempfile
+    import shutil
+    lines = {}   # file -> {lineno: executed?}
+    for rs, run in res.extra.get("pairs", []):
+        if rs.flavour != "cov":
+            continue
+        for gcda in glob.glob(run.target.bin + "-*.gcda"):
+            tmp = tempfile.mkdtemp(prefix="gcov-", dir=os.path.join(B.CACHE, "run"))
+            try:
+                subprocess.run(["gcov", "-o", os.path.dirname(gcda), gcda],
+                               cwd=tmp, capture_output=True, text=True,
+                               timeout=600)
+                for g in glob.glob(os.path.join(tmp, "*.gcov")):
+                    src = None
+                    for ln in open(g, errors="replace"):
+                        parts = ln.split(":", 2)
+                        if len(parts) < 3:
+                            continue
+                        cnt, no = parts[0].strip(), parts[1].strip()
+                        if no == "0":
+                            if parts[2].startswith("Source:"):
+                                src = os.path.realpath(parts[2][7:].strip())
+                            continue
+                        if not src or not src.startswith(
+                                os.path.realpath(B.REPO) + os.sep):
+                            continue
+                        if cnt == "-":
+                            continue
+                        rel = os.path.relpath(src, os.path.realpath(B.REPO))
+                        d = lines.setdefault(rel, {})
+                        hit = not cnt.startswith("#") and not cnt.startswith("=")
+                        d[int(no)] = d.get(int(no), False) or hit
+            finally:
+                shutil.rmtree(tmp, ignore_errors=True)
+    if not lines:
+        return
+    summary = {}
+    tot = hit = 0
+    for f, d in sorted(lines.items()):
+        h = sum(1 for v in d.values() if v)
+        summary[f] = {"instantiated_lines": len(d), "executed": h,
+                      "not_executed": sorted(k for k, v in d.items() if not v)[:60]}
+        tot += len(d)
+        hit += h
+    res.counters["cov:library-lines-instantiated"] = tot
+    res.counters["cov:library-lines-executed"] = hit
+    res.extra["coverage"] = {"library_line_coverage_of_sanitized_workloads":
+                             summary}
+
+
 def c09_runs(tier, seed):
     runs = san_runs(tier, seed, "asan")
+    # line coverage of the same workloads (small counts, -O0 --coverage)
+    runs += san_runs(tier, seed, "cov", q(tier, 0.02, 0.002), with_expr=True,
+                     with_examples=False)
     if tier == "thorough":
         runs += san_runs(tier, seed, "asan-clang", 0.3)
         runs += san_runs(tier, seed, "dbgstl", 0.3)
@@ -737,6 +794,7 @@ reg(Spec(
                  "subscripts are only ever called in range"],
     evaluations=None,
     crash_kinds=MEM_KINDS,
+    post=c09_post,
     technique="compiler sanitizers (ASan+UBSan, libstdc++ assertions; "
               "thorough: clang, checked STL, valgrind memcheck) over the "
               "workloads of all other checks + exhaustive accessor-bounds "
